@@ -460,20 +460,105 @@ fn reset_race_case(seed: u64, idx: u64) -> CaseOut {
     co
 }
 
+
+/// Steady-tick lane: with a steady ticker installed the ticker thread is the only one that feeds the estimator
+/// (manual updates no longer tick). The harness moves the virtual clock and the position in lock-step at an
+/// exactly constant rate and, after every step, gives the ticker (1 ms real interval) the time for two full
+/// ticks - real time is only ever waited for, never judged. The rate read afterwards must be the true rate,
+/// and must not grow while the bar then stalls.
+fn ticker_fed_case(seed: u64, idx: u64) -> CaseOut {
+    let mut rng = Rng::derive(seed, 909, idx);
+    let replay = format!("k{seed}:{idx}");
+    let per_ms = rng.range(1, 5000);
+    let n = rng.range(3, 12) as usize;
+    let gaps: Vec<u64> = (0..n).map(|_| if rng.chance(1, 2) { rng.range(1, 2_000) } else { gap_ms(&mut rng).min(3_600_000) }).collect();
+    let w = J::obj().with("steps_per_ms", per_ms).with("gaps_ms", J::from(gaps.clone())).with("steady_tick_ms", 1u64);
+    let feats = vec!["steady-tick".to_string()];
+    let mut co = CaseOut::held(fnv1a(format!("k{seed}:{idx}").as_bytes()), true);
+    let clock = Arc::new(AtomicU64::new(7_000_000_000));
+    install_session(&clock);
+    let draws = Arc::new(AtomicU64::new(0));
+    let d2 = draws.clone();
+    let spy = crate::spy::SpyTerm::new(80, 10, false);
+    spy.state().snap_on_flush = false;
+    let pb = ProgressBar::with_draw_target(Some(u64::MAX), ProgressDrawTarget::term_like(spy.boxed()));
+    pb.set_style(indicatif::ProgressStyle::with_template("{pos} {c}").unwrap().with_key("c", move |_: &indicatif::ProgressState, _: &mut dyn std::fmt::Write| {
+        d2.fetch_add(1, Ordering::SeqCst);
+    }));
+    pb.enable_steady_tick(Duration::from_millis(1));
+    let two_ticks = || {
+        let d0 = draws.load(Ordering::SeqCst);
+        let t0 = std::time::Instant::now();
+        while draws.load(Ordering::SeqCst) < d0 + 2 {
+            if t0.elapsed() > Duration::from_secs(3) {
+                return false;
+            }
+            std::thread::sleep(Duration::from_micros(300));
+        }
+        true
+    };
+    let res: Result<(), Verdict> = (|| {
+        let mut pos = 0u64;
+        let stuck = || Verdict::Inconclusive("the ticker thread did not tick twice within 3 s".into());
+        if !two_ticks() {
+            return Err(stuck());
+        }
+        for g in &gaps {
+            clock.fetch_add(g * MS, Ordering::SeqCst);
+            pos += g * per_ms;
+            pb.set_position(pos);
+            if !two_ticks() {
+                return Err(stuck());
+            }
+        }
+        let got = pb.per_sec();
+        let want = per_ms as f64 * 1000.0;
+        if !got.is_finite() || rel(got, want) > 1e-6 {
+            return Err(viol("steady-rate-wrong", feats.clone(), format!("a bar driven by a steady ticker progressed at exactly {want} steps/s over {n} steps; per_sec() = {got}"), w.clone(), replay.clone()));
+        }
+        // stall: time passes, nothing happens
+        let mut prev = got;
+        for _ in 0..3 {
+            clock.fetch_add(rng.range(1, 30_000) * MS, Ordering::SeqCst);
+            if !two_ticks() {
+                return Err(stuck());
+            }
+            let r = pb.per_sec();
+            if !r.is_finite() || r < 0.0 || r > prev * (1.0 + 1e-9) {
+                return Err(viol("ticker-stall-rate-increased", feats.clone(), format!("steady-ticked bar stalls: per_sec() went from {prev} to {r}"), w.clone(), replay.clone()));
+            }
+            prev = r;
+        }
+        Ok(())
+    })();
+    pb.disable_steady_tick();
+    pb.abandon();
+    if let Err(v) = res {
+        co.verdict = v;
+    }
+    indicatif::verif_hooks::install(None);
+    co.count("ticker_fed_samples", n as u64);
+    co.count("ticker_draws", draws.load(Ordering::SeqCst));
+    co
+}
+
 pub fn run(cfg: &RunCfg) -> PropResult {
     let report = if let Some(case) = &cfg.case {
         let race = case.starts_with('r');
-        let mut it = case.trim_start_matches('r').split(':');
+        let tick = case.starts_with('k');
+        let mut it = case.trim_start_matches(['r', 'k']).split(':');
         let seed: u64 = it.next().and_then(|s| s.parse().ok()).unwrap_or(cfg.seed);
         let idx: u64 = it.next().and_then(|s| s.parse().ok()).unwrap_or(0);
         let mut r = crate::report::Report::default();
-        r.add(idx, if race { reset_race_case(seed, idx) } else { run_case(seed, idx) });
+        r.add(idx, if tick { ticker_fed_case(seed, idx) } else if race { reset_race_case(seed, idx) } else { run_case(seed, idx) });
         r
     } else {
         let n = if cfg.thorough { 40_000_000 } else { 1_000_000 };
         let mut r = run_parallel(n, workers(), |i| run_case(cfg.seed, i));
         let nr = if cfg.thorough { 100_000 } else { 3_000 };
         r.merge(crate::report::run_parallel_tagged('r', nr, workers(), |i| reset_race_case(cfg.seed, i)));
+        let nk = if cfg.thorough { 40_000 } else { 1_200 };
+        r.merge(crate::report::run_parallel_tagged('k', nk, workers(), |i| ticker_fed_case(cfg.seed, i)));
         r
     };
     PropResult {
